@@ -12,6 +12,8 @@ def props_for(path):
     name = path.split('::')[-1]
     if 'wcet::' in path.split(' ')[0] or path.startswith('wcet::') or '<wcet::' in path or 'wcet::JobCostModel' in path:
         p.add('C14')
+    if path.startswith('supply::') or '<supply::' in path:
+        p.add('C09')
     if path.startswith('demand::') or '<demand::' in path or 'demand::RequestBound' in path or 'demand::AggregateRequestBound' in path:
         p.add('C16')
         if name in ('steps_iter', 'step_offsets'):
